@@ -24,6 +24,7 @@ VERUS = shutil.which("verus") or "/opt/veriftools/verus/verus"
 KINDS = [
     ("postcondition not satisfied", "post"),
     ("precondition not satisfied", "pre"),
+    ("precondition not met", "pre"),
     ("possible arithmetic underflow/overflow", "overflow"),
     ("invariant not satisfied at end of loop body", "inv-step"),
     ("invariant not satisfied before loop", "inv-entry"),
